@@ -557,12 +557,19 @@ func doBinaryOp(a constant.Value, tok token.Token, b constant.Value, ctx []*inte
 		if b.Kind() == constant.Unknown {
 			panic(fmt.Errorf("invalid shift count: cannot convert type %v to type uint", ctx[1].Type))
 		}
+		if s, exact := constant.Int64Val(b); exact && (s < 0 || s > maxShiftCount) {
+			// same bound as go/types: larger counts are rejected, not evaluated
+			panic(fmt.Errorf("invalid shift count %v", b))
+		}
 		if s, exact := constant.Int64Val(b); exact {
 			return constant.Shift(a, tok, uint(s))
 		}
 		panic(errors.New("shift count too large (overflow)"))
 	}
 }
+
+// maxShiftCount is the largest constant shift count go/types accepts (1023 - 1 + 52).
+const maxShiftCount = 1023 - 1 + 52
 
 const (
 	binaryOpNormal = iota
